@@ -117,6 +117,19 @@ func c12Run(ctx *core.Ctx) {
 		}
 		ctx.Eval(1)
 		c12Set(ctx, i, fs, ctx.Thorough())
+		// the same set handed over under ONE file name (base names of files from different directories, or no names at all): the
+		// statement speaks of a list of files, not of a set of distinct names
+		if len(fs.Files) >= 2 && (ctx.Thorough() || i%3 == 0) {
+			same := gen.FileSet{Tag: fs.Tag + " [all files named same.fga]"}
+			for _, f := range fs.Files {
+				g := f
+				g.Name = "same.fga"
+				same.Files = append(same.Files, g)
+			}
+			ctx.Eval(1)
+			ctx.Flag("c12:same-names")
+			c12Set(ctx, i, same, ctx.Thorough())
+		}
 	})
 }
 
